@@ -585,6 +585,9 @@ pub fn make_altroot_dir(s: &VfsPath, p: &str, sentinels: bool) -> VfsPath {
 /// Initial contents: (base index, entries relative to the top-level namespace).
 pub type Init = Vec<(usize, Vec<(String, Node)>)>;
 
+/// Panics (of the library or of a harness assertion) while initial contents were written.
+pub static SETUP_PANICS: std::sync::Mutex<Vec<String>> = std::sync::Mutex::new(Vec::new());
+
 pub fn build(cfg: &Cfg, order: Order, init: &Init) -> Built {
     build_opts(cfg, order, init, true)
 }
@@ -610,19 +613,29 @@ pub fn build_opts(cfg: &Cfg, order: Order, init: &Init, sentinels: bool) -> Buil
         held: std::sync::Mutex::new(None),
         _scratch: b.scratch,
     };
-    for (bi, entries) in init {
-        let base = &built.bases[*bi];
-        for (p, n) in entries {
-            let full = format!("{}{}", base.prefix, p);
-            let x = base.raw.join(&full[1..]).expect("HARNESS: init path");
-            match n {
-                Node::Dir => x.create_dir_all().expect("HARNESS: init dir"),
-                Node::File(bytes) => {
-                    x.parent().create_dir_all().expect("HARNESS: init parent");
-                    PathApi::write_file(&x, bytes).expect("HARNESS: init file")
+    // initial contents are written with single-level calls only (the composite calls are under
+    // test themselves); a library panic here is recorded and reported by `report::conclude`
+    let r = crate::api::guard(|| {
+        for (bi, entries) in init {
+            let base = &built.bases[*bi];
+            for (p, n) in entries {
+                let full = format!("{}{}", base.prefix, p);
+                let comps: Vec<&str> = full[1..].split('/').collect();
+                let ndirs = if matches!(n, Node::Dir) { comps.len() } else { comps.len() - 1 };
+                for k in 1..=ndirs {
+                    let d = base.raw.join(&comps[..k].join("/")).expect("HARNESS: init path");
+                    let _ = d.create_dir();
+                    assert!(d.is_dir().unwrap_or(false), "HARNESS: init dir {:?}", d.as_str());
+                }
+                if let Node::File(bytes) = n {
+                    let x = base.raw.join(&full[1..]).expect("HARNESS: init path");
+                    PathApi::write_file(&x, bytes).expect("HARNESS: init file");
                 }
             }
         }
+    });
+    if let Err(m) = r {
+        SETUP_PANICS.lock().unwrap().push(format!("{}: {}", cfg.label(), m));
     }
     built
 }
